@@ -13,7 +13,10 @@ impl FrameBatch {
   #[verifier::external_body]
   pub fn new() -> (r: FrameBatch) ensures r@ =~= Seq::<Msg>::empty() { unimplemented!() }
   #[verifier::external_body]
-  pub fn with_capacity(capacity: usize) -> (r: FrameBatch) ensures r@ =~= Seq::<Msg>::empty() { unimplemented!() }
+  pub fn with_capacity(capacity: usize) -> (r: FrameBatch)
+    requires capacity <= FB_CAP()     // VecU8::with_capacity asserts cap <= 255
+    ensures r@ =~= Seq::<Msg>::empty()
+  { unimplemented!() }
   #[verifier::external_body]
   pub fn len(&self) -> (r: usize) ensures r == self@.len(), r <= 255 { unimplemented!() }
   #[verifier::external_body]
@@ -48,6 +51,12 @@ impl FrameBatch {
     ensures self@.len() == 0 ==> r is None, self@.len() > 0 ==> r == Some(&self@.last())
   { unimplemented!() }
   #[verifier::external_body]
+  pub fn last_mut(&mut self) -> (r: Option<&mut Msg>)
+    ensures
+      old(self)@.len() == 0 ==> r is None && final(self)@ == old(self)@,
+      old(self)@.len() > 0 ==> (r matches Some(m) && *m == old(self)@.last() && final(self)@ == old(self)@.drop_last().push(*final(m))),
+  { unimplemented!() }
+  #[verifier::external_body]
   pub fn get(&self, i: usize) -> (r: Option<&Msg>)
     ensures i >= self@.len() ==> r is None, i < self@.len() ==> r == Some(&self@[i as int])
   { unimplemented!() }
@@ -56,6 +65,18 @@ impl FrameBatch {
   pub fn verif_set_flags(&mut self, i: usize, flags: MsgFlags)
     requires i < old(self)@.len()
     ensures final(self)@ == old(self)@.update(i as int, Msg { data: old(self)@[i as int].data, flags: flags })
+  { unimplemented!() }
+  // Extend<Msg> with another batch (the real one pushes frame by frame: capacity precondition on the total)
+  #[verifier::external_body]
+  pub fn extend(&mut self, other: FrameBatch)
+    requires old(self)@.len() + other@.len() <= FB_CAP()
+    ensures final(self)@ == old(self)@ + other@
+  { unimplemented!() }
+  // From<Vec<Msg>>: VecU8::with_capacity(v.len()) panics beyond the capacity
+  #[verifier::external_body]
+  pub fn from(v: Vec<Msg>) -> (r: FrameBatch)
+    requires v@.len() <= FB_CAP()
+    ensures r@ == v@
   { unimplemented!() }
   // R8: `for frame in batch` (by value): the frames in index order
   #[verifier::external_body]
